@@ -177,8 +177,16 @@ def r183(ctx, res):
     fi = repo.fn("unify_types", "utils.util")
     table = None
     default = None
-    for n in walk_local(fi.node):
-        if isinstance(n, ast.Assign) and isinstance(n.value, ast.Dict) and all(isinstance(k, ast.Name) for k in n.value.keys) \
+    # the rank table may be a local of unify_types, of a helper of its module that it calls, or a module-level constant
+    cands = [n for n in walk_local(fi.node)]
+    for c in walk_local(fi.node):
+        if isinstance(c, ast.Call) and isinstance(c.func, ast.Name):
+            b = fi.resolve(c.func.id)
+            if b is not None and b.kind == "func" and b.target.module is fi.module:
+                cands += list(walk_local(b.target.node))
+    cands += [n for n in fi.module.tree.body if isinstance(n, ast.Assign)]
+    for n in cands:
+        if isinstance(n, ast.Assign) and isinstance(n.value, ast.Dict) and n.value.keys and all(isinstance(k, ast.Name) for k in n.value.keys) \
                 and all(isinstance(v, ast.Constant) and isinstance(v.value, int) for v in n.value.values):
             table = {k.id: v.value for k, v in zip(n.value.keys, n.value.values)}
             table_name = n.targets[0].id
